@@ -1036,9 +1036,15 @@ def decode_case(rng, conventional=True, twin=False):
             steps.append('Z')
             nsaved += 1
     a, b, c = order[0], order[1], order[2]
-    stmts = [['$c', '#Pattern', '|-', '(', ')', IMP] + consts + ['$.'], ['$v'] + names + ['$.']]
+    # some variables are element / set variables: their floating hypotheses are mandatory hypotheses like any other
+    tcode = {v: '#Pattern' for v in names}
+    if conventional and rng.random() < 0.35:
+        for v in rng.sample(names, rng.randint(1, 2)):
+            if v not in (a, b, c):          # the syntax axioms below are stated over pattern variables
+                tcode[v] = rng.choice(('#ElementVariable', '#SetVariable'))
+    stmts = [['$c', '#Pattern', '#ElementVariable', '#SetVariable', '|-', '(', ')', IMP] + consts + ['$.'], ['$v'] + names + ['$.']]
     for v in order:
-        stmts.append([flab[v], '$f', '#Pattern', v, '$.'])
+        stmts.append([flab[v], '$f', tcode[v], v, '$.'])
     stmts.append(['imp-is-pattern', '$a', '#Pattern', '(', IMP, a, b, ')', '$.'])
     for i, cst in enumerate(consts):
         stmts.append([f'c{i}-is-pattern', '$a', '#Pattern', cst, '$.'])
@@ -1056,7 +1062,7 @@ def decode_case(rng, conventional=True, twin=False):
     # the proof string goes through the real lark parser, so the wild rendering also varies the whitespace
     # inside the label list and the letter stream
     lems = assertion_stmts(lem)
-    out = {'target': label, 'mand': mand, 'listed': listed, 'steps': steps, 'nvars': m,
+    out = {'target': label, 'mand': mand, 'listed': listed, 'steps': steps, 'nvars': m, 'non_pattern_mandatory': sum(1 for v in tv if tcode[v] != '#Pattern'),
            'f_order': [flab[v] for v in order], 'zmode': zmode, 'style': style, 'conventional': conventional,
            'f_sorted': mand == sorted(mand)}
     if tv2 is not None:
